@@ -296,6 +296,7 @@ fn pre_dispatch(sim: &Sim) {
     st.idle_expected.clear();
     st.timer_fire_deadlines.clear();
     st.dispatch_error_seen = false;
+    st.hook_time = 0;
     for s in st.srcs.values_mut() {
         s.cb_this_dispatch = 0;
         s.pe_this_dispatch = 0;
@@ -709,11 +710,12 @@ fn check_wait(sim: &Rc<Sim>, t: Timeout, w: &WaitRec, t_start: u64, t_end: u64, 
         );
         return;
     }
-    if t_start != w.t_enter {
+    let hook_time = sim.st.borrow().hook_time;
+    if t_start + hook_time != w.t_enter {
         sim.violate("wait.clock_moved", vec![], "clock moved before the wait".into());
         return;
     }
-    if matches!(t, Timeout::Zero) && t_end != t_start {
+    if matches!(t, Timeout::Zero) && t_end != t_start + hook_time {
         sim.violate("wait.clock_moved", vec![], "zero timeout dispatch consumed time".into());
         return;
     }
@@ -1385,14 +1387,6 @@ fn step_invariants(sim: &Rc<Sim>, p: &Program, i: usize) {
     crate::adapter::step_invariants(sim);
     if sim.is_dead() {
         return;
-    }
-    // a Signals source whose last owner went away has been dropped: its mask is released
-    {
-        let mut st = sim.st.borrow_mut();
-        let gone: Vec<Id> = st.srcs.iter().filter(|(_, s)| matches!(&s.k, K::Sig(k) if k.alive) && s.sh.dropped.get() > 0).map(|(i, _)| *i).collect();
-        for id in gone {
-            crate::sig::source_dropped(&mut st, id);
-        }
     }
     crate::sig::check(sim, "step");
     if sim.is_dead() {
